@@ -153,3 +153,17 @@ Theorem unguarded_decode_loops_are_exactly :
    ("LineColumnTracker.scanTo", "utf8.DecodeLastRuneInString")]%string.
 Proof. exact unguarded_sites_are. Qed.
 Print Assumptions unguarded_decode_loops_are_exactly.
+
+(* T8 extended to the API layer and the stdio service: every goroutine of pkg/api, cmd/esbuild, pkg/cli that
+   runs a build either defers a recover wrapper or is spawned by one of five pinned functions *)
+Theorem service_goroutines_unprotected_are_known : forall s, In s service_spawn_sites -> runs_build s = true ->
+  (1 <= sp_recover s)%nat \/ In (sp_func s) known_unprotected_spawners.
+Proof. exact service_goroutines_all. Qed.
+Print Assumptions service_goroutines_unprotected_are_known.
+
+(* ... and at present none of them has one (a panic in pkg/api or cmd/esbuild code inside such a goroutine
+   terminates the process; the parser/printer goroutines below them do recover: every_goroutine_recovers) *)
+Theorem every_service_goroutine_recovers_refuted :
+  forallb (fun s => Nat.eqb (sp_recover s) 0) service_spawn_sites = true.
+Proof. exact service_goroutines_none_recovers. Qed.
+Print Assumptions every_service_goroutine_recovers_refuted.
